@@ -109,15 +109,45 @@ def has_ph(parts):
 
 # =====================================================================================================
 # processing item conditions (scopes)
-def parse_conds(item, rule_category="c"):
+def rule_cond_match(item, applied, rule_category="c"):
+    """match_rule_conditions: log source and processing_item_applied conditions, linking all"""
     rc = item.get("rule_conditions", [])
-    rm = all(c.get("category") == rule_category for c in rc)
+    def one(c):
+        if c["type"] == "processing_item_applied":
+            return c["processing_item_id"] in applied
+        return c.get("category") == rule_category
+    rm = all(one(c) for c in rc)
     if item.get("rule_cond_not", False):
         rm = not rm
-    rm = (not rc) or rm
+    return (not rc) or rm
+
+
+def rule_matches(pipeline):
+    """key of every processing item -> whether its rule conditions match, in pipeline order (an applied
+    item marks the rule with its identifier: PreprocessingTransformation.apply)"""
+    applied, out = set(), {}
+    def walk(items, prefix, live):
+        for k, it in enumerate(items):
+            key = f"{prefix}{k}"
+            m = rule_cond_match(it, applied)
+            out[key] = m
+            if live and m and it.get("id"):
+                applied.add(it["id"])
+            if it["type"] == "nest":
+                walk(it["items"], key + ".", live and m)
+    walk(pipeline["transformations"], "", True)
+    return out
+
+
+def parse_conds(item, rule_match=True):
     fconds = [("inc" if c["type"] == "include_fields" else "exc", list(c["fields"])) for c in item.get("field_name_conditions", [])]
-    iconds = [("null" if c["type"] == "is_null" else "wild", c["cond"] == "all") for c in item.get("detection_item_conditions", [])]
-    return {"rule": rm, "fconds": fconds, "fneg": bool(item.get("field_name_cond_not", False)),
+    iconds = []
+    for c in item.get("detection_item_conditions", []):
+        if c["type"] == "processing_item_applied":
+            iconds.append(("applied", c["processing_item_id"]))
+        else:
+            iconds.append(("null" if c["type"] == "is_null" else "wild", c["cond"] == "all"))
+    return {"id": item.get("id"), "rule": rule_match, "fconds": fconds, "fneg": bool(item.get("field_name_cond_not", False)),
             "iconds": iconds, "ineg": bool(item.get("detection_item_cond_not", False))}
 
 
@@ -132,6 +162,8 @@ def fm(conds, f):
 
 
 def ic_match(c, item):
+    if c[0] == "applied":
+        return c[1] in item.get("ap", [])
     pred = (lambda v: v[0] == "null") if c[0] == "null" else (lambda v: v[0] == "str" and any(p[0] in "mq" for p in v[2]))
     return (all if c[1] else any)(pred(v) for v in item["vs"])
 
@@ -164,14 +196,14 @@ def denull(pipeline):
     return p
 
 
-def parse_item(item, added_key, added, drawn):
-    """-> ("item", conds, tspec) | ("nest", conds, [(conds, tspec)...])"""
-    conds = parse_conds(item)
+def parse_item(item, added_key, added, drawn, rm=None):
+    """-> ("item", conds, tspec) | ("nest", conds, [(conds, tspec)...]); rm: rule_matches of the pipeline"""
+    conds = parse_conds(item, True if rm is None else rm[added_key])
     t = item["type"]
     if t == "nest":
         sub = []
         for k, it in enumerate(item["items"]):
-            r = parse_item(it, f"{added_key}.{k}", added, drawn)
+            r = parse_item(it, f"{added_key}.{k}", added, drawn, rm)
             sub.append((r[1], r[2]))
         return ("nest", conds, sub)
     if t == "field_name_mapping":
@@ -241,8 +273,19 @@ def make_afn(ts):
 
 # =====================================================================================================
 # THE SPECIFICATION: documented rewrite of one entry (mirrors coq/Spec/Rewrite.v, written by hand)
-def E(f, vs, all_, neg):
-    return ["E", {"f": f, "vs": vs, "all": all_, "neg": neg}]
+def E(f, vs, all_, neg, ap=()):
+    return ["E", {"f": f, "vs": vs, "all": all_, "neg": neg, "ap": sorted(ap)}]
+
+
+def mark_doc(id_, d):
+    """bookkeeping later items can refer to (processing_item_applied): mark every entry of the fragment"""
+    if id_ is None:
+        return d
+    if d[0] == "E":
+        return ["E", dict(d[1], ap=sorted(set(d[1].get("ap", [])) | {id_}))]
+    if d[0] == "Neg":
+        return ["Neg", mark_doc(id_, d[1])]
+    return [d[0], [mark_doc(id_, x) for x in d[1]]]
 
 
 def rw_rename(conds, afn, it):
@@ -262,7 +305,7 @@ def rw_rename(conds, afn, it):
             vals1.append(v)
     t = targets(it["f"])
     if t is None:
-        return E(it["f"], vals1, it["all"], it["neg"])
+        return E(it["f"], vals1, it["all"], it["neg"], it.get("ap", ()))
     if it["f"] is None:       # keyword -> field: substring semantics (f|contains: kw)
         vals2 = []
         for v in vals1:
@@ -275,8 +318,8 @@ def rw_rename(conds, afn, it):
     else:
         vals2 = vals1
     if t[0] == "one":
-        return E(t[1], vals2, it["all"], it["neg"])
-    alt = ["Any", [E(g, vals2, it["all"], False) for g in t[1]]]
+        return E(t[1], vals2, it["all"], it["neg"], it.get("ap", ()))
+    alt = ["Any", [E(g, vals2, it["all"], False, it.get("ap", ())) for g in t[1]]]
     return ["Neg", alt] if it["neg"] else alt
 
 
@@ -296,24 +339,24 @@ def ph_expand(parts, cb):
     return [[parts[0]] + x for x in rest]
 
 
-def tvs(ts, vars_, f, v):
-    """the values that replace value v inside its value list"""
+def tv(ts, vars_, f, v):
+    """the values that replace value v inside its value list; None: the transformation does not apply to v"""
     k = ts[0]
     if k == "setvalue":
         return [ts[1]]
     if k == "case":
         if v[0] != "str":
-            return [v]
+            return None
         fn = {"lower": str.lower, "upper": str.upper,
               "snake_case": lambda x: re.sub(r"(?<!^)(?=[A-Z])", "_", x).lower()}[ts[1]]
         return [["str", v[1], [["s", fn(p[1])] if p[0] == "s" else p for p in v[2]]]]
     if k == "mapstring":
         if v[0] != "str":
-            return [v]
+            return None
         for key, vals in ts[1]:
             if key == plain_of(v[2]):
                 return [["str", False, sparse(x)] for x in vals]
-        return [v]
+        return None
     if k == "replace":
         if v[0] == "str":
             p = plain_of(v[2])
@@ -321,20 +364,20 @@ def tvs(ts, vars_, f, v):
         if v[0] == "num":
             p = plain_of(sparse(v[1]))
             return [v] if re.sub(ts[1], ts[2], p) == p else [["str", False, replace_parts(ts[1], ts[2], sparse(v[1]))]]
-        return [v]
+        return None
     if k == "convertstr":
         if v[0] == "num":
             return [["str", False, sparse(v[1])]]
         if v[0] == "exp":
             return [["exp", [["str", False, sparse(x[1])] if x[0] == "num" else x for x in v[1]]]]
-        return [v]
+        return None
     if k in ("wildph", "valueph"):
         if v[0] != "str":
-            return [v]
+            return None
         inc, exc = ts[1], ts[2]
         names = [p[1] for p in v[2] if p[0] == "p"]
         if not any((inc is None or n in inc) and (exc is None or n not in exc) for n in names):
-            return [v]
+            return None
         handled = lambda n: (inc is None and exc is None) or (inc is not None and n in inc) or (exc is not None and n not in exc)
         if k == "wildph":
             repl = lambda n: [[["m"]]]
@@ -344,21 +387,26 @@ def tvs(ts, vars_, f, v):
                 return [sparse(str(y)) for y in (x if isinstance(x, list) else [x])]
         cb = lambda n: repl(n) if handled(n) else [[["p", n]]]
         return [["str", False, merge(x)] for x in ph_expand(v[2], cb)]
-    return [v]
+    return None
 
 
 def rw_entry(conds, ts, vars_, it):
-    """-> doc | None (entry removed)"""
+    """-> doc | None (entry removed); a touched entry's fragment is marked with the item's identifier"""
     if not im(conds, it):
         return ["E", it]
     afn = make_afn(ts)
     if afn is not None:
-        return rw_rename(conds, afn, it)
+        t = afn(it["f"])
+        touched = (t is not None and fm(conds, it["f"])) or any(v[0] == "ref" and fm(conds, v[1]) for v in it["vs"])
+        d = rw_rename(conds, afn, it)
+        return mark_doc(conds["id"], d) if touched else d
     if ts[0] == "drop":
         return None
     if ts[0] in ("addcond", "noop"):
         return ["E", it]
-    return E(it["f"], [x for v in it["vs"] for x in tvs(ts, vars_, it["f"], v)], it["all"], it["neg"])
+    rs = [tv(ts, vars_, it["f"], v) for v in it["vs"]]
+    d = E(it["f"], [x for v, r in zip(it["vs"], rs) for x in ([v] if r is None else r)], it["all"], it["neg"], it.get("ap", ()))
+    return mark_doc(conds["id"], d) if any(r is not None for r in rs) else d
 
 
 def subst(r, d):
@@ -379,7 +427,7 @@ def subst_top(r, d):
 def doc_of(t):
     if "items" in t:
         return ["All" if t["and"] else "Any", [doc_of(x) for x in t["items"]]]
-    return ["E", t]
+    return ["E", dict(t, ap=sorted(t.get("ap", [])))]
 
 
 def rewrite_step(conds, ts, vars_, docs, expr):
@@ -388,7 +436,7 @@ def rewrite_step(conds, ts, vars_, docs, expr):
         return docs, expr
     if ts[0] == "addcond":
         name, det, neg = ts[1], ts[2], ts[3]
-        new = doc_of(det)
+        new = mark_doc(conds["id"], doc_of(det))
         docs = [[n, new] if n == name else [n, d] for n, d in docs] if any(n == name for n, _ in docs) else docs + [[name, new]]
         ref = ["id", name]
         return docs, ["and", [["not", ref] if neg else ref, expr]]
@@ -400,8 +448,9 @@ def rewrite_case(case, rin, added, rout):
     expr = case["expr"]
     vars_ = case["pipeline"].get("vars", {})
     drawn = drawn_names(case, rin, rout)
+    rm = rule_matches(case["pipeline"])
     for k, item in enumerate(case["pipeline"]["transformations"]):
-        p = parse_item(item, str(k), added, drawn)
+        p = parse_item(item, str(k), added, drawn, rm)
         if p[0] == "item":
             docs, expr = rewrite_step(p[1], p[2], vars_, docs, expr)
         elif p[1]["rule"]:
@@ -425,10 +474,11 @@ def drawn_names(case, rin, rout):
     have = {n for n, _ in rin["dets"]}
     new = [n for n, _ in rout["dets"] if n not in have and n.startswith("_cond_")]
     out = {}
+    rm = rule_matches(case["pipeline"])
     def walk(items, prefix):
         for k, it in enumerate(items):
             key = f"{prefix}{k}"
-            if not parse_conds(it)["rule"]:
+            if not rm[key]:
                 continue          # not applied: nothing drawn that shows in the rule
             if it["type"] == "nest":
                 walk(it["items"], key + ".")
@@ -780,6 +830,16 @@ def template_subst(conds):
     return {k: ([s(i) for i in v] if isinstance(v, list) else s(v)) for k, v in conds.items()}
 
 
+def assign_ids(items, prefix="i"):
+    """every processing item gets an explicit identifier (without one the implementation derives a hash
+    of the item's configuration, which is outside the model)"""
+    for k, it in enumerate(items):
+        if not it.get("id"):
+            it["id"] = f"{prefix}{k}"
+        if it["type"] == "nest":
+            assign_ids(it["items"], it["id"] + "_")
+
+
 def collect_added(items, prefix, out):
     for k, it in enumerate(items):
         key = f"{prefix}{k}"
@@ -787,6 +847,103 @@ def collect_added(items, prefix, out):
             collect_added(it["items"], key + ".", out)
         elif it["type"] == "add_condition":
             out[key] = template_subst(it["conditions"]) if it.get("template") else it["conditions"]
+
+
+def rule_fields(rule):
+    out = []
+    def det(d):
+        if isinstance(d, dict):
+            for k in d:
+                f = k.split("|")[0]
+                if f and f not in out:
+                    out.append(f)
+        elif isinstance(d, list):
+            for x in d:
+                if isinstance(x, (dict, list)):
+                    det(x)
+    for n, d in rule["detection"].items():
+        if n != "condition":
+            det(d)
+    return out or ["f"]
+
+
+NONIDEMPOTENT = [("^", "pre_"), ("$", "_post"), ("a", "aa"), ("^(.)", "\\1\\1")]
+
+
+def gen_second(rng, rule, dep):
+    """a transformation whose scope `dep` depends on the effect of the first one; values transformations
+    incl. non-idempotent ones, field mappings, drop"""
+    t = rng.choice(["replace_string", "replace_string", "case", "set_value", "map_string", "wildcard_placeholders",
+                    "value_placeholders", "field_name_suffix", "drop_detection_item", "field_name_mapping", "convert_type"])
+    it = {"type": t}
+    if t == "replace_string":
+        it["regex"], it["replacement"] = rng.choice(NONIDEMPOTENT)
+    elif t == "case":
+        it["method"] = rng.choice(["upper", "snake_case"])
+    elif t == "set_value":
+        it["value"] = rng.choice(["Z", 7, None])
+    elif t == "map_string":
+        it["mapping"] = {k: rng.choice(["x", ["x", "y"]]) for k in rng.sample(rule_plain_values(rule), 1) + ["a", "ab"]}
+    elif t == "field_name_suffix":
+        it["suffix"] = ".s"
+    elif t == "field_name_mapping":
+        it["mapping"] = {k: rng.choice(["m1", ["m1", "m2"]]) for k in rng.sample(TARGETS + C_FIELDS, 3)}
+    elif t == "convert_type":
+        it["target_type"] = "str"
+    it.update(dep)
+    return it
+
+
+def gen_dependent_chain(rng, rule):
+    """short chains where the second item is conditioned on the effect of the first"""
+    fields = rule_fields(rule)
+    kind = rng.choice(["map-then-field", "map-then-field", "map-then-applied", "mark-map-applied", "rule-applied", "fix-then-field"])
+    if kind in ("map-then-field", "map-then-applied", "mark-map-applied"):
+        src = rng.sample(fields, min(len(fields), rng.randint(1, 2)))
+        tg = rng.sample(["x", "y", "z", "b"], 3)
+        mapping = {f: ([tg[0], tg[1]] if rng.random() < 0.7 else tg[0]) for f in src}
+        if rng.random() < 0.2:
+            mapping[NULLKEY] = [tg[1], tg[2]]
+        first = {"id": "M", "type": "field_name_mapping", "mapping": mapping}
+        if rng.random() < 0.2:
+            first = {"id": "M", "type": "field_name_prefix_mapping", "mapping": {src[0][:1]: [tg[0] + ".", tg[1] + "."]}}
+    if kind == "map-then-field":
+        dep = {"field_name_conditions": [{"type": rng.choice(["include_fields", "include_fields", "exclude_fields"]),
+                                          "fields": rng.sample(tg + fields, rng.randint(1, 2))}]}
+        if rng.random() < 0.15:
+            dep["field_name_cond_not"] = True
+        items = [first, gen_second(rng, rule, dep)]
+        if rng.random() < 0.3:
+            items.append(gen_second(rng, rule, {"field_name_conditions": [{"type": "include_fields", "fields": rng.sample(tg, 1)}]}))
+    elif kind == "map-then-applied":
+        dep = {"detection_item_conditions": [{"type": "processing_item_applied", "processing_item_id": "M"}]}
+        if rng.random() < 0.3:
+            dep["detection_item_cond_not"] = True
+        items = [first, gen_second(rng, rule, dep)]
+    elif kind == "mark-map-applied":
+        a = gen_second(rng, rule, gen_scope(rng, allow_rule=False))
+        a["id"] = "A"
+        dep = {"detection_item_conditions": [{"type": "processing_item_applied", "processing_item_id": rng.choice(["A", "A", "M"])}]}
+        if rng.random() < 0.2:
+            dep["detection_item_cond_not"] = True
+        items = [a, first, gen_second(rng, rule, dep)]
+    elif kind == "rule-applied":
+        a = gen_transformation(rng, rule, False)
+        a["id"] = "A"
+        dep = {"rule_conditions": [{"type": "processing_item_applied", "processing_item_id": rng.choice(["A", "A", "nope"])}]}
+        if rng.random() < 0.3:
+            dep["rule_cond_not"] = True
+        items = [a, gen_second(rng, rule, dep)]
+    else:
+        fix = rng.choice([{"type": "field_name_prefix", "prefix": "p."}, {"type": "field_name_suffix", "suffix": "_s"}])
+        f = rng.choice(fields)
+        newname = ("p." + f) if "prefix" in fix else (f + "_s")
+        fix["id"] = "M"
+        dep = {"field_name_conditions": [{"type": "include_fields", "fields": [rng.choice([newname, newname, f])]}]}
+        items = [fix, gen_second(rng, rule, dep)]
+    if rng.random() < 0.15:
+        items = [{"type": "nest", "items": items}]
+    return items
 
 
 def selectors_inhabited(e, names):
@@ -815,31 +972,19 @@ def gen_tr(tier, rng):
             rule["fields"] = rng.sample(C_FIELDS + ["other"], rng.randint(1, 3))
         identity = rng.random() < 0.25
         r = rng.random()
-        if r < 0.7:
+        if rng.random() < 0.3:
+            identity = False
+            items = gen_dependent_chain(rng, rule)
+        elif r < 0.7:
             items = [gen_transformation(rng, rule, identity)]
         elif r < 0.85:
             items = [gen_transformation(rng, rule, identity), gen_transformation(rng, rule, identity and rng.random() < 0.5)]
         else:
             inner = [gen_transformation(rng, rule, identity) for _ in range(rng.randint(1, 2))]
-            inner.sort(key=lambda it: 0 if it["type"] == "replace_string" else 1)
             nest = {"type": "nest", "items": inner}
             nest.update(gen_scope(rng) if rng.random() < 0.5 else {})
             items = [nest]
-        # replace_string first in a chain and only once (its substitution table - the re.sub oracle of the
-        # model - is computed from the values of the rule as loaded)
-        items.sort(key=lambda it: 0 if it["type"] == "replace_string" else 1)
-        seen = [False]
-        def once(its):
-            for it in its:
-                if it["type"] == "nest":
-                    once(it["items"])
-                elif it["type"] == "replace_string":
-                    if seen[0]:
-                        for k in ("regex", "replacement"):
-                            it.pop(k)
-                        it["type"], it["method"] = "case", "upper"
-                    seen[0] = True
-        once(items)
+        assign_ids(items)
         pipeline = {"name": "p", "priority": 10, "vars": VARS, "transformations": items}
         added = {}
         collect_added(items, "", added)
@@ -850,6 +995,7 @@ def gen_tr(tier, rng):
 def hostile_cases():
     def mk(dets, expr, items, identity=False):
         rule = {"title": "t", "logsource": {"category": "c"}, "detection": dict(dets, condition=spell(expr))}
+        assign_ids(items)
         added = {}
         collect_added(items, "", added)
         return {"rule": rule, "expr": expr, "pipeline": {"name": "p", "priority": 10, "vars": VARS, "transformations": items},
@@ -872,6 +1018,28 @@ def hostile_cases():
         mk({"sel": {"f|fieldref|neq": "g"}}, sel, [{"type": "field_name_mapping", "mapping": {"g": ["g1", "g2"], "f": ["f1", "f2"]}}]),
         mk({"sel": {"f|expand|all": ["%x%", "b"]}}, sel, [{"type": "value_placeholders"}]),
         mk({"sel": [{"f": "a"}, {"g|all": ["MixedCase*", "twoWords"]}]}, sel, [{"type": "case", "method": "snake_case"}]),
+        # copies of a one-to-many mapping are independent items: a value transformation scoped to one mapped
+        # field must not leak to the sibling, a non-idempotent one is applied once per copy
+        mk({"sel": {"src": "foo"}}, sel, [{"type": "field_name_mapping", "mapping": {"src": ["x", "y"]}},
+                                           {"type": "set_value", "value": "bar",
+                                            "field_name_conditions": [{"type": "include_fields", "fields": ["x"]}]}]),
+        mk({"sel": {"src": ["foo", "f*"], "g": 1}}, sel, [{"type": "field_name_mapping", "mapping": {"src": ["x", "y"]}},
+                                                        {"type": "replace_string", "regex": "^", "replacement": "pre_"}]),
+        mk({"sel": {"src|neq": "foo"}}, sel, [{"id": "M", "type": "field_name_mapping", "mapping": {"src": ["x", "y", "z"]}},
+                                              {"type": "case", "method": "upper",
+                                               "field_name_conditions": [{"type": "exclude_fields", "fields": ["y"]}]},
+                                              {"type": "replace_string", "regex": "$", "replacement": "_post",
+                                               "detection_item_conditions": [{"type": "processing_item_applied", "processing_item_id": "M"}]}]),
+        # marks survive the copies: A marks f and g, f is mapped one-to-many, C applies where A was applied
+        mk({"sel": {"f": "foo", "g": "bar"}}, sel, [{"id": "A", "type": "case", "method": "upper"},
+                                                    {"id": "B", "type": "field_name_mapping", "mapping": {"f": ["x", "y"]}},
+                                                    {"id": "C", "type": "set_value", "value": "Z",
+                                                     "detection_item_conditions": [{"type": "processing_item_applied", "processing_item_id": "A"}]}]),
+        mk({"sel": {"f": "foo", "g": "bar"}}, sel, [{"id": "B", "type": "field_name_mapping", "mapping": {"f": "x"}},
+                                                    {"id": "C", "type": "set_value", "value": "Z",
+                                                     "detection_item_conditions": [{"type": "processing_item_applied", "processing_item_id": "B"}]},
+                                                    {"id": "D", "type": "field_name_suffix", "suffix": "_s",
+                                                     "rule_conditions": [{"type": "processing_item_applied", "processing_item_id": "C"}]}]),
     ]
     return out
 
@@ -924,7 +1092,8 @@ def c_ostr(s):
 
 
 def c_item(it):
-    return "(mkI %s %s %s %s)" % (c_ostr(it["f"]), clist(c_value(v) for v in it["vs"]), cbool(it["all"]), cbool(it["neg"]))
+    return "(mkI %s %s %s %s %s)" % (c_ostr(it["f"]), clist(c_value(v) for v in it["vs"]), cbool(it["all"]), cbool(it["neg"]),
+                                     clist(cstr(x) for x in it.get("ap", [])))
 
 
 def c_det(t):
@@ -950,14 +1119,51 @@ def c_fres(fr):
 
 
 def c_conds(c):
-    return "(mkC %s %s %s %s %s)" % (
-        cbool(c["rule"]), clist("(%s %s)" % ("FInc" if k == "inc" else "FExc", clist(cstr(x) for x in l)) for k, l in c["fconds"]),
-        cbool(c["fneg"]), clist("(%s %s)" % ("IIsNull" if k == "null" else "IWild", cbool(a)) for k, a in c["iconds"]), cbool(c["ineg"]))
+    def ic(k, a):
+        return "(IApplied %s)" % cstr(a) if k == "applied" else "(%s %s)" % ("IIsNull" if k == "null" else "IWild", cbool(a))
+    return "(mkC %s %s %s %s %s %s)" % (
+        c_ostr(c["id"]), cbool(c["rule"]), clist("(%s %s)" % ("FInc" if k == "inc" else "FExc", clist(cstr(x) for x in l)) for k, l in c["fconds"]),
+        cbool(c["fneg"]), clist(ic(k, a) for k, a in c["iconds"]), cbool(c["ineg"]))
 
 
 def c_phsel(inc, exc):
     f = lambda l: copt(None if l is None else clist(cstr(x) for x in l))
     return "{| ph_inc := %s; ph_exc := %s |}" % (f(inc), f(exc))
+
+
+def doc_plains(d, out):
+    if d[0] == "E":
+        for v in d[1]["vs"]:
+            for x in (v[1] if v[0] == "exp" else [v]):
+                if x[0] == "str":
+                    out.add(plain_of(x[2]))
+                elif x[0] == "num":
+                    out.add(plain_of(sparse(x[1])))
+    elif d[0] == "Neg":
+        doc_plains(d[1], out)
+    else:
+        for x in d[1]:
+            doc_plains(x, out)
+
+
+def all_plains(case, r):
+    """plain forms of every string / number that can meet a replace_string step: values of the rule as
+    loaded, of added detections, of the documents after every step of the hand rewrite, and of the
+    implementation's final rule (the re.sub oracle of the model is tabulated on these)"""
+    out = set(plain_strings(r["rin"], r["added"])) | set(plain_strings(r["rout"]))
+    docs = [[n, doc_of(t)] for n, t in r["rin"]["dets"]]
+    expr = case["expr"]
+    vars_ = case["pipeline"].get("vars", {})
+    drawn = drawn_names(case, r["rin"], r["rout"])
+    rm = rule_matches(case["pipeline"])
+    for k, item in enumerate(case["pipeline"]["transformations"]):
+        p = parse_item(item, str(k), r["added"], drawn, rm)
+        steps = [(p[1], p[2])] if p[0] == "item" else (p[2] if p[1]["rule"] else [])
+        for c, ts in steps:
+            docs, expr = rewrite_step(c, ts, vars_, docs, expr)
+            for _, d in docs:
+                doc_plains(d, out)
+    return sorted(out)
 
 
 def plain_strings(r, added=None):
@@ -979,7 +1185,7 @@ def plain_strings(r, added=None):
     return sorted(out)
 
 
-def c_tspec(ts, vars_, rin, added=None):
+def c_tspec(ts, vars_, plains):
     k = ts[0]
     if k == "fieldmap":
         return "(TFieldMap %s)" % clist("(%s, %s)" % (c_ostr(a), c_fres(b)) for a, b in ts[1])
@@ -1004,7 +1210,7 @@ def c_tspec(ts, vars_, rin, added=None):
         return "(TMapString %s)" % clist("(%s, %s)" % (cstr(a), clist(cstr(x) for x in b)) for a, b in ts[1])
     if k == "replace":
         # re.sub as a finite table over the plain forms occurring in the rule (oracle instantiation)
-        return "(TReplace %s)" % clist("(%s, %s)" % (cstr(p), cstr(re.sub(ts[1], ts[2], p))) for p in plain_strings(rin, added))
+        return "(TReplace %s)" % clist("(%s, %s)" % (cstr(p), cstr(re.sub(ts[1], ts[2], p))) for p in plains)
     if k == "convertstr":
         return "TConvertStr"
     if k == "wildph":
@@ -1018,13 +1224,15 @@ def c_tspec(ts, vars_, rin, added=None):
 def c_pipeline(case, r):
     vars_ = case["pipeline"].get("vars", {})
     drawn = drawn_names(case, r["rin"], r["rout"])
+    rm = rule_matches(case["pipeline"])
+    plains = all_plains(case, r)
     out = []
     for k, item in enumerate(case["pipeline"]["transformations"]):
-        p = parse_item(item, str(k), r["added"], drawn)
+        p = parse_item(item, str(k), r["added"], drawn, rm)
         if p[0] == "item":
-            out.append("(PItem %s %s)" % (c_conds(p[1]), c_tspec(p[2], vars_, r["rin"], r["added"])))
+            out.append("(PItem %s %s)" % (c_conds(p[1]), c_tspec(p[2], vars_, plains)))
         else:
-            out.append("(PNest %s %s)" % (c_conds(p[1]), clist("(%s, %s)" % (c_conds(c), c_tspec(t, vars_, r["rin"], r["added"])) for c, t in p[2])))
+            out.append("(PNest %s %s)" % (c_conds(p[1]), clist("(%s, %s)" % (c_conds(c), c_tspec(t, vars_, plains)) for c, t in p[2])))
     return clist(out)
 
 
@@ -1091,8 +1299,9 @@ def iter_items(t):
 
 def steps_of(case, r):
     drawn = drawn_names(case, r["rin"], r["rout"])
+    rm = rule_matches(case["pipeline"])
     for k, item in enumerate(case["pipeline"]["transformations"]):
-        p = parse_item(item, str(k), r["added"], drawn)
+        p = parse_item(item, str(k), r["added"], drawn, rm)
         if p[0] == "item":
             yield p[1], p[2]
         elif p[1]["rule"]:
@@ -1103,26 +1312,40 @@ def bs_before_wildcard(parts):
     return any(a[0] == "s" and a[1].endswith("\\") and b[0] in "mq" for a, b in zip(parts, parts[1:]))
 
 
+def doc_entries(d):
+    if d[0] == "E":
+        yield d[1]
+    elif d[0] == "Neg":
+        yield from doc_entries(d[1])
+    else:
+        for x in d[1]:
+            yield from doc_entries(x)
+
+
 def known_tr(case, r):
+    """input classes of the known findings, evaluated on the documents each step of the pipeline meets"""
     if "rin" not in r or "rout" not in r:
         return None
+    docs = [[n, doc_of(t)] for n, t in r["rin"]["dets"]]
+    expr = case["expr"]
+    vars_ = case["pipeline"].get("vars", {})
     for conds, ts in steps_of(case, r):
-        if not conds["rule"]:
-            continue
-        for _, t in r["rin"]["dets"]:
-            for it in iter_items(t):
-                if not im(conds, it):
-                    continue
-                afn = make_afn(ts)
-                if afn is not None and it["f"] is None and fm(conds, None) and afn(None) is not None \
-                        and any(v[0] == "num" for v in it["vs"]):
-                    return "D28-keyword-number-mapped-to-field-exact-match"
-                if ts[0] == "replace":
-                    for v in it["vs"]:
-                        if v[0] == "num" and re.sub(ts[1], ts[2], v[1]) == v[1]:
-                            return "D30-replace-string-noop-turns-number-into-string"
-                        if v[0] == "str" and re.sub(ts[1], ts[2], plain_of(v[2])) == plain_of(v[2]) and bs_before_wildcard(v[2]):
-                            return "D10-replace-string-noop-backslash-before-wildcard"
+        if conds["rule"]:
+            for _, d in docs:
+                for it in doc_entries(d):
+                    if not im(conds, it):
+                        continue
+                    afn = make_afn(ts)
+                    if afn is not None and it["f"] is None and fm(conds, None) and afn(None) is not None \
+                            and any(v[0] == "num" for v in it["vs"]):
+                        return "D28-keyword-number-mapped-to-field-exact-match"
+                    if ts[0] == "replace":
+                        for v in it["vs"]:
+                            if v[0] == "num" and re.sub(ts[1], ts[2], v[1]) == v[1]:
+                                return "D30-replace-string-noop-turns-number-into-string"
+                            if v[0] == "str" and re.sub(ts[1], ts[2], plain_of(v[2])) == plain_of(v[2]) and bs_before_wildcard(v[2]):
+                                return "D10-replace-string-noop-backslash-before-wildcard"
+        docs, expr = rewrite_step(conds, ts, vars_, docs, expr)
     return None
 
 
